@@ -460,7 +460,7 @@ def diff(exp, got, path=()):
         if set(ek) != set(gk):
             yield path + ('<keys>',), sorted(map(str, set(ek) - set(gk))), sorted(map(str, set(gk) - set(ek)))
         elif ek != gk and isinstance(exp, OrderedDict) and path and path[-1] in (
-                'types', 'aliases', 'routes', 'annotations'):
+                'types', 'aliases', 'routes', 'annotations', 'examples'):
             yield path + ('<order>',), ek, gk
         for k in ek:
             if k in got:
